@@ -12,7 +12,7 @@ use proptest::prelude::*;
 use serde::{Deserialize, Serialize};
 use vcommon::{CaseInfo, CheckResult, Ctx, Failure, Report, ensure, idx};
 
-use crate::util::{CS, SeedRng, fill, flip, nz};
+use crate::util::{CS, SeedRng, fill, flip};
 
 fn f<E: std::fmt::Display>(sig: &'static str) -> impl Fn(E) -> Failure {
     move |e| Failure::new(sig, e.to_string())
@@ -683,7 +683,6 @@ fn check_hpke(c: &HCase, info: &mut CaseInfo, prim: Prim) -> CheckResult {
     if rejected >= 3 {
         info.nontrivial();
     }
-    let _ = nz(1);
     Ok(())
 }
 
@@ -739,8 +738,8 @@ pub fn run(ctx: &Ctx) -> ! {
     rep.assume("all keys, nonces and HPKE ephemeral keys come from a deterministic byte stream seeded by the case; the oracle does not depend on the values");
     rep.assume("cipher suite = DefaultCipherSuite (AES-256-GCM, HKDF-SHA-512, DHKEM-P256); the primitives themselves are trusted, the check is about what is bound into each operation");
     rep.assume("GroupKey Context has no boundary-shift modification: parent and author id are fixed-width, so no two distinct contexts share a concatenation");
-    let n_sym = ctx.pick(12_000, 400_000);
-    let n_h = ctx.pick(1_500, 50_000);
+    let n_sym = ctx.pick(12_000, 250_000);
+    let n_h = ctx.pick(1_500, 30_000);
     rep.explore(
         "group_key_seal_open",
         "GroupKey::seal/open: plaintext 0..4096 B (incl. 0, block-size edges), label (unicode/empty), parent, author key; 2..11 single \
